@@ -48,6 +48,13 @@ BENIGN = [
  ('prim_norm_inf_scaled_temp', 'src/algebra/vecmath.rs', 'zip(self, v).fold(T::zero(), |acc, (&x, &y)| T::max(acc, T::abs(x * y)))', 'zip(self, v).fold(T::zero(), |acc, (&x, &y)| {\n            let p = y * x;\n            T::max(T::abs(p), acc)\n        })'),
  ('expformat_negated_guard', D + 'info_print.rs', '        if $val.is_finite() {\n            _exp_str_reformat(format!($fmt, $val))\n        } else {\n            format!($fmt, $val)\n        }', '        if !$val.is_finite() {\n            format!($fmt, $val)\n        } else {\n            _exp_str_reformat(format!($fmt, $val))\n        }'),
  ('zero_unit_init_reordered', R + 'core/cones/zerocone.rs', '    fn unit_initialization(&self, z: &mut [T], s: &mut [T]) {\n        s.fill(T::zero());\n        z.fill(T::zero());', '    fn unit_initialization(&self, z: &mut [T], s: &mut [T]) {\n        z.fill(T::zero());\n        s.set(T::zero());'),
+ ('reduce_cones_index_walk', D + 'presolver.rs', None, None),  # handled specially: index-based walk that advances on every path
+ ('genpow_get_Hs_fill', R + 'core/cones/genpowcone.rs', 'Hsblock[dim1..].set(data.μ * data.d2);', 'Hsblock[dim1..].fill(data.μ * data.d2);'),
+ ('exp_membership_reordered', R + 'core/cones/expcone.rs', 'if s[2] > T::zero() && s[1] > T::zero() {\n            //feasible', 'if s[1] > T::zero() && s[2] > T::zero() {\n            //feasible'),
+ ('newton_relative_mul_form', R + 'core/cones/nonsymmetric_common.rs', '|| (T::abs(dx / x) < T::sqrt(T::epsilon()))', '|| (T::abs(dx) < T::sqrt(T::epsilon()) * T::abs(x))'),
+ ('timer_reset_reordered', 'src/timers/timers.rs', '        self.start = None;\n        self.elapsed = Duration::ZERO;\n        self.subtimers.clear();', '        self.subtimers.clear();\n        self.elapsed = Duration::ZERO;\n        self.start = None;'),
+ ('equil_new_clone', D + 'equilibration.rs', '        let d = vec![T::one(); n];\n        let dinv = vec![T::one(); n];', '        let d = vec![T::one(); n];\n        let dinv = d.clone();'),
+ ('sparsity_mask_eq_form', 'src/solver/chordal/chordal_info.rs', '        if bi != T::zero() {\n            active[i] = true;\n        }', '        if bi == T::zero() {\n            continue;\n        }\n        active[i] = true;'),
  ('refactor_comment_and_let', 'src/qdldl/qdldl.rs', '        self.is_symbolic = false;\n        _factor(', '        self.is_symbolic = false;\n        let _n = self.D.len();\n        _factor('),
 ]
 
@@ -75,6 +82,27 @@ def special(name, src):
                           '                if cone.is_symmetric() != symcond {\n                    continue;\n                }\n                let (dzi, dsi)')
         src = src.replace('        α = innerfcn(α, true);', '        α = innerfcn(α, FIRSTFLAG);').replace('        α = innerfcn(α, false);', '        α = innerfcn(α, true);')
         return src.replace('innerfcn(α, FIRSTFLAG)', 'innerfcn(α, false)')
+    if name == 'reduce_cones_index_walk':
+        a = src.index('        let mut keep_iter = map.keep_logical.iter();')
+        b = src.index('        cones_new\n    }', a)
+        new = '''        let mut start = 0; // index of the first marker of this cone
+
+        for cone in cones {
+            let numel_cone = cone.nvars();
+            if matches!(cone, SupportedConeT::NonnegativeConeT(_)) {
+                let markers = &map.keep_logical[start..start + numel_cone];
+                let nkeep = markers.iter().filter(|&b| *b).count();
+                if nkeep > 0 {
+                    cones_new.push(SupportedConeT::NonnegativeConeT(nkeep));
+                }
+            } else {
+                cones_new.push(cone.clone());
+            }
+            start += numel_cone;
+        }
+
+'''
+        return src[:a] + new + src[b:]
     raise KeyError(name)
 
 
